@@ -241,6 +241,8 @@ class Verifier:
                                        'value': None})
         if a.vararg:
             locals_[a.vararg.arg] = VTuple([])
+        if a.kwarg:
+            locals_[a.kwarg.arg] = VDict({})         # entry point verified for the call without extra keyword options
         for p_, d in zip(a.kwonlyargs, a.kw_defaults):
             ty = contract.params.get(p_.arg)
             if ty is not None:
